@@ -776,8 +776,14 @@ async def run_join_leave(loop, kind, seq):
         byid = {id(q): n for n, q in objs.items()}
         for n, q in objs.items():
             keys.setdefault(n, hash(q))
-        live_after.append((",".join("%d=%d" % kv for kv in sorted(keys.items())),
-                           ",".join("%s:%d" % (key, byid.get(id(h), -1)) for key, h in parent._handlers.items())))
+        # (the keyed table is the library's private representation: compared with the keyed model only while it
+        # still is a dict of hash -> child; the behavioural comparison below does not depend on it)
+        tab = getattr(parent, "_handlers", None)
+        if isinstance(tab, dict) and all(isinstance(key, int) for key in tab):
+            live_after.append((",".join("%d=%d" % kv for kv in sorted(keys.items())),
+                               ",".join("%s:%d" % (key, byid.get(id(h), -1)) for key, h in tab.items())))
+        else:
+            live_after.append(None)
         f = (24, 0x00F000 + k) if k % 3 == 2 else (16, 0x0200 + k)
         data = list(f[1].to_bytes(f[0] // 8, "big"))
         ss.feed(sim.luba_rx(data) if kind == "luba" else sim.sci_rx(data))
@@ -811,6 +817,9 @@ def registry_suite(ctx, corr, ids):
             k = 0
             for pos, e in enumerate(evlog):
                 if e.startswith("M."):
+                    if live_after[k] is None:
+                        corr.bump("keyed-registry:other-representation")
+                        break
                     keytab, table = live_after[k]
                     want = ask("kreg %s %s" % (keytab or "-", " ".join(evlog[:pos])))
                     if want.strip() != ("ok " + table).strip():
